@@ -91,6 +91,7 @@ inductive Err where
   | typeError
   | zeroDivisionError
   | other
+  | keyError
 deriving DecidableEq, Repr
 
 /-- The array a metric's threshold is set on, its `increasing` flag and `ratio_class`. -/
